@@ -181,6 +181,25 @@ func Handle(c *core.Check, st core.State) {
 				return jexpr.Value(&hcl.EvalContext{Variables: vars, Functions: e1.Functions()})
 			}, vec)
 		}
+		// references that occur only inside template directives (no interpolation sequence at all)
+		for _, tsrc := range []string{"%{ if " + src + " }yes%{ endif }", "x{y}%{ for q in " + src + " }-%{ endfor }"} {
+			if !ok {
+				break
+			}
+			djs, _ := json.Marshal(tsrc)
+			dexpr, dd := hcljson.ParseExpression(djs, "d.json")
+			if dd.HasErrors() {
+				continue
+			}
+			var drep []string
+			if rec, p := core.Guard(func() { drep = roots(dexpr.Variables()) }); p {
+				c.Violation("panic/Variables-json/"+e1.Fam(v.Node), fmt.Sprintf("json Variables() of %s panicked: %v", djs, rec), vec)
+				return
+			}
+			ok = checkSufficiency(c, "json-directive", string(djs), v, drep, func(vars map[string]cty.Value) (cty.Value, hcl.Diagnostics) {
+				return dexpr.Value(&hcl.EvalContext{Variables: vars, Functions: e1.Functions()})
+			}, vec)
+		}
 		if ok {
 			kjs := []byte(`{"p-` + string(js[1:len(js)-1]) + `": ` + `"${n2}"` + `}`)
 			kexpr, kd := hcljson.ParseExpression(kjs, "k.json")
